@@ -13,7 +13,8 @@ Triples(fam) == CASE fam = "fmt_enum" -> Perms3("rename_snake", "lit_wrap", "bou
                   [] fam = "fmt_container" -> Perms3("lit", "bound_T", "bound_U")
                   [] OTHER -> {}
 Init == f \in Families /\ as \in {<<>>} \cup Triples(f) /\ sep \in Seps
-Add == Len(as) < MaxAttrs /\ \E a \in Atoms(f) : as' = Append(as, a) /\ UNCHANGED <<f, sep>>
+\* (`#[attr = "x"]`, the name-value form, is no documented spelling of any derive's attribute: an atom of every family)
+Add == Len(as) < MaxAttrs /\ \E a \in Atoms(f) \cup {"eq_value"} : as' = Append(as, a) /\ UNCHANGED <<f, sep>>
 Next == Add
 Spec == Init /\ [][Next]_<<f, as, sep>>
 
